@@ -462,12 +462,26 @@ func parse(raw json.RawMessage) *caseT {
 	return &tc
 }
 
+// classOf groups failures for the check's reproduction step (a few cases per class are run again in isolation).
+func classOf(m *mismatch) string {
+	if m.dev != "" {
+		return m.dev
+	}
+	for _, k := range []string{"Value(", "Deadline", "registered", "Err()", "did not return", "Done"} {
+		if strings.Contains(m.what, k) {
+			return strings.Trim(k, "(")
+		}
+	}
+	return "other"
+}
+
 func fail(m *mismatch, root string, attempt int) rp.Result {
 	what := m.what
 	if root != "Background" {
 		what += " [context 0 = " + root + "()]"
 	}
-	return rp.Result{OK: false, What: what, Deviation: m.dev, Observed: m.obs, Nontriv: true, Info: map[string]int{"attempt": attempt}}
+	return rp.Result{OK: false, What: what, Deviation: m.dev, Observed: m.obs, Nontriv: true,
+		Info: map[string]interface{}{"attempt": attempt, "class": classOf(m)}}
 }
 
 // withRetries runs attempts with growing delta until one is in time. An attempt that fell behind only because a Done
@@ -511,7 +525,8 @@ func guarded(i int, f func() rp.Result) (r rp.Result) {
 				fmt.Fprintf(os.Stderr, "replay: harness bug on case %d: %v\n%s\n", i, e, debug.Stack())
 				os.Exit(3)
 			}
-			r = rp.Result{OK: false, What: fmt.Sprintf("panic: %v", e), Observed: string(debug.Stack()), Nontriv: true}
+			r = rp.Result{OK: false, What: fmt.Sprintf("panic: %v", e), Observed: string(debug.Stack()), Nontriv: true,
+				Info: map[string]interface{}{"class": "panic"}}
 		}
 		r.I = i
 	}()
